@@ -9,39 +9,86 @@ PID = "C01"
 WAL_HEAD = 5  # WalRecordHeadSize: [type:1][len:4]
 
 
-def key_coq(s, t, f):
-    return "(%s, %s, %s)" % (coq_n(s), coq_n(t), coq_n(f))
+def mst_of(h, s):
+    n = h.get("nmst", 1) or 1
+    return s % n if n > 1 else 0
 
 
-def batch_coq(op):
-    if op["k"] != "W":
-        return "[]"
+def key_coq(h, s, t, f):
+    # Model.v: series s belongs to measurement s / 1000
+    return "(%s, %s, %s)" % (coq_n(s + 1000 * mst_of(h, s)), coq_n(t), coq_n(f))
+
+
+def rows_coq(h, rows):
     cells = []
-    for r in op["rows"]:
+    for r in rows:
         for fv in r["f"]:
-            cells.append("(%s, %s)" % (key_coq(r["s"], r["t"], fv["f"]), coq_z(fv["v"])))
+            cells.append("(%s, %s)" % (key_coq(h, r["s"], r["t"], fv["f"]), coq_z(fv["v"])))
     return coq_list(cells)
+
+
+def cop_coq(h, op):
+    if op["k"] == "W":
+        return "CW %s" % rows_coq(h, op["rows"])
+    if op["k"] == "D":
+        return "CD %s" % coq_n(op.get("m", 0) % (h.get("nmst", 1) or 1))
+    return "CN"
 
 
 def parts_coq(parts):
     return coq_list([coq_list(["%d%%nat" % i for i in p]) for p in parts])
 
 
-def image_coq(im, parent_parts):
+def epochs_of(h, im):
+    """the switch epochs of the history machine at the image: the first nrec write ops grouped by the first nsw log switches
+    (F, D, and FB when no flush is held; FE/F/D end a held flush)"""
+    eps, cur, nw, ns, held = [], [], 0, 0, False
+    for i, op in enumerate(h["ops"]):
+        k = op["k"]
+        if k == "W":
+            if nw < im["nrec"]:
+                cur.append(i)
+                nw += 1
+        elif k in ("F", "D") or (k == "FB" and not held):
+            if ns < im["nsw"]:
+                eps.append(cur)
+                cur = []
+                ns += 1
+            held = (k == "FB")
+        elif k == "FE":
+            held = False
+    return eps + [cur], nw, ns
+
+
+def image_coq(h, im, parent_parts):
     chain = [parts_coq(im["parts"])] if im["sub"] < 0 else [parts_coq(parent_parts), parts_coq(im["parts"])]
-    infl = "None" if im["inflight"] < 0 else "(Some %d%%nat)" % im["inflight"]
-    obs = coq_list(["(%s, %s)" % (key_coq(c["s"], c["t"], c["f"]), coq_z(c["got"])) for c in im["dump"]])
-    return "mkci %d%%nat %s %s %s" % (im["acked"], infl, coq_list(chain), obs)
+    infl = "None" if im["inflight"] < 0 or im["inflight"] >= len(h["ops"]) else "(Some %d%%nat)" % im["inflight"]
+    obs = coq_list(["(%s, %s)" % (key_coq(h, c["s"], c["t"], c["f"]), coq_z(c["got"])) for c in im["dump"]])
+    post = []
+    a = im.get("async")
+    if a:
+        if a["drop_tried"] and not a["drop_refused"]:
+            post.append("CD %s" % coq_n(a["drop_m"]))
+        if a.get("extra") and a["extra_acked"]:
+            post.append("CW %s" % rows_coq(h, a["extra"]))
+    tie = "None"
+    if im.get("tie") and im["sub"] < 0:
+        eps, nw, ns = epochs_of(h, im)
+        if nw == im["nrec"] and ns == im["nsw"]:
+            tie = "(Some (mkct %s %d%%nat %s))" % (parts_coq(eps), im["nj"], coq_list(["%d%%nat" % p for p in im.get("gone") or []]))
+        else:
+            tie = "(Some (mkct [] 0%nat []))"  # bookkeeping impossible for the op list: reported as a tie failure
+    return "mkci %d%%nat %s %s %s %s %s" % (im["acked"], infl, coq_list(post), coq_list(chain), tie, obs)
 
 
-def writes_to(h, upto, inflight, cell):
+def writes_to(h, upto, inflight, cell, extra=None):
     """(op index, value) of every write op in ops[:upto] (+ inflight) touching the cell, in ack order"""
     out = []
-    idxs = list(range(upto)) + ([inflight] if inflight is not None and inflight >= upto else [])
+    idxs = list(range(upto)) + ([inflight] if inflight is not None and inflight >= upto and inflight < len(h["ops"]) else [])
     for i in idxs:
         op = h["ops"][i]
-        if op["k"] == "D":
-            out = []  # writes before an acknowledged drop do not count
+        if op["k"] == "D" and op.get("m", 0) % (h.get("nmst", 1) or 1) == mst_of(h, cell["s"]):
+            out = []  # writes before an acknowledged drop of the cell's measurement do not count
         if op["k"] != "W":
             continue
         for r in op["rows"]:
@@ -56,22 +103,39 @@ def partition_of(h, i):
     return sum(1 for o in h["ops"][:i] if o["k"] == "W") % h["nwal"]
 
 
-def lww_py(h, upto, inflight):
+def lww_py(h, upto, inflight, post=None):
     m = {}
-    idxs = list(range(upto)) + ([inflight] if inflight is not None and inflight >= upto else [])
-    for i in idxs:
-        op = h["ops"][i]
+
+    def ap(op):
         if op["k"] == "D":
-            m = {}
+            dm = op.get("m", 0) % (h.get("nmst", 1) or 1)
+            for k in [k for k in m if mst_of(h, k[0]) == dm]:
+                del m[k]
         if op["k"] == "W":
             for r in op["rows"]:
                 for fv in r["f"]:
                     m[(r["s"], r["t"], fv["f"])] = fv["v"]
+    idxs = list(range(upto)) + ([inflight] if inflight is not None and inflight >= upto and inflight < len(h["ops"]) else [])
+    for i in idxs:
+        ap(h["ops"][i])
+    for op in post or []:
+        ap(op)
     return m
 
 
+def post_ops(im):
+    a = im.get("async")
+    out = []
+    if a:
+        if a["drop_tried"] and not a["drop_refused"]:
+            out.append({"k": "D", "m": a["drop_m"]})
+        if a.get("extra") and a["extra_acked"]:
+            out.append({"k": "W", "rows": a["extra"]})
+    return out
+
+
 def diff_py(h, im, inflight):
-    exp = lww_py(h, im["acked"], inflight)
+    exp = lww_py(h, im["acked"], inflight, post_ops(im))
     got = {(c["s"], c["t"], c["f"]): c["got"] for c in im.get("dump") or []}
     out = []
     for k in sorted(set(exp) | set(got)):
@@ -116,6 +180,25 @@ def walphase_signature1(h, im, diff):
     return True
 
 
+def asyncreplay_signature(h, im, diff):
+    """asynchronous replay: a write acknowledged by the re-opened shard while the log had not been re-applied yet; every
+    failing cell is a cell of that write, the value wanted is the value it wrote, and the value found is the value of a
+    record of that cell in the image's live log (the replay re-applied the older record over the newer write)"""
+    a = im.get("async")
+    if not a or not a.get("extra") or not a["extra_acked"] or not diff:
+        return False
+    extra = {(r["s"], r["t"], fv["f"]): fv["v"] for r in a["extra"] for fv in r["f"]}
+    live = [i for p in (im.get("parts") or []) for i in p]
+    for c in diff:
+        k = (c["s"], c["t"], c["f"])
+        if k not in extra or not c["wok"] or not c["gok"] or c["want"] != extra[k]:
+            return False
+        logged = [v for (i, v) in writes_to(h, len(h["ops"]), None, c) if i in live]
+        if c["got"] not in logged:
+            return False
+    return True
+
+
 def main(ck):
     ck.assumptions += [
         "process-kill crash semantics: completed writes/renames/removes are visible after the crash; the torn last WAL append is any "
@@ -125,11 +208,22 @@ def main(ck):
         "the model abstracts data files to their logical content (file codec: C07; layout precedence: C02); records are whole "
         "write batches; the repaired variant assumes an epoch tag in the WAL file name and whole-epoch removal",
         "snappy / row marshalling of WAL payloads round-trip and reject damaged payloads (C07's obligation)",
+        "a DROP MEASUREMENT that was not acknowledged before the crash may leave its measurement in any partially dropped state "
+        "(cells gone or back at an older flushed value, nothing invented); every other measurement is exact",
+        "writers are sequential (one write request at a time); flushes, drops and the replay run concurrently with them",
     ]
     ck.cov["trusted_base"] = ["Coq 8.16.1 kernel + vm_compute (cases evaluation, Examples, refutation witnesses)",
                               "no axioms (Print Assumptions: closed)",
-                              "Go harness cmd/c01 + internal/crashfs + internal/tsdrv (hooks lib/fileops/verif_export_c03.go, "
-                              "engine/verif_export_c02.go), python driver props/C01/run.py"]
+                              "Go harness cmd/c01 (gate over the recording VFS, watchdog) + internal/crashfs + internal/tsdrv (hooks "
+                              "lib/fileops/verif_export_c03.go, engine/verif_export_c02.go, engine/verif_export_c01.go, "
+                              "engine/verif_export_c01b.go), python driver props/C01/run.py"]
+    # findings of this property's fragment that the merged known_findings.json does not know yet (read-only, never written)
+    try:
+        frag = json.load(open(os.path.join(vlib.VERIF, "props", PID, "findings.json")))["findings"]
+        have = {f["id"] for f in ck.findings}
+        ck.findings += [f for f in frag if f["property"] == PID and f["id"] not in have]
+    except (OSError, ValueError, KeyError):
+        pass
     ck.coq_audit(["C01"])
     ok = ck.coq_build(["C01/Proofs.vo", "C01/Proofs2.vo", "C01/Corr.vo"])
     if ok:
@@ -137,22 +231,43 @@ def main(ck):
     binp = ck.go_build("./cmd/c01", "c01")
     if not binp:
         return
-    n = 9 if ck.tier == "quick" else 150
+    quick = ck.tier == "quick"
+    n = 8 if quick else 150
+    # the harness has a per-history watchdog (no progress for 60 s -> the history is reported and the run ends); the
+    # process timeout is the second line of defence: ~9 min in the quick tier
     if ck.replay:
         rp = json.load(open(ck.replay))
         hf = os.path.join(ck.work, "replay_history.json")
-        json.dump({"case": rp["case"], "nwal": rp["nwal"], "nser": rp["nser"], "pre": rp.get("pre", 0), "auto": rp.get("auto", False),
-                   "async": rp.get("async", False), "ops": rp["ops"]}, open(hf, "w"))
-        rc, out = ck.run([binp, "1", hf], timeout=3000)
+        json.dump({"case": rp["case"], "nwal": rp["nwal"], "nser": rp["nser"], "nmst": rp.get("nmst", 1), "pre": rp.get("pre", 0),
+                   "auto": rp.get("auto", False), "async": rp.get("async", False), "ops": rp["ops"]}, open(hf, "w"))
+        rc, out = ck.run([binp, "1", hf], timeout=540 if quick else 3000)
     else:
-        rc, out = ck.run([binp, str(n)], timeout=6000)
+        rc, out = ck.run([binp, str(n)], timeout=540 if quick else 6000)
     hs = [json.loads(l) for l in out.splitlines() if l.startswith('{"case"')]
+    starts = [json.loads(l) for l in out.splitlines() if l.startswith('{"start"')]
     if rc != 0 or "c01 done" not in out or not hs:
-        ck.broken.append("harness c01 failed rc=%d histories=%d: %s" % (rc, len(hs), out[-600:]))
-        return
+        done = {h["case"] for h in hs}
+        unfinished = [s for s in starts if s["start"] not in done]
+        ck.broken.append("harness c01 did not finish (rc=%d, %d histories finished%s): %s" % (
+            rc, len(hs), ", history %d was running" % unfinished[-1]["start"] if unfinished else "", out[-400:]))
+        if unfinished:
+            s = unfinished[-1]
+            ck.nofail_detail = {"kind": "harness-died-or-timed-out", "case": s["start"], "nwal": s["nwal"], "nser": s["nser"], "nmst": s.get("nmst", 1),
+                                "pre": s.get("pre", 0), "auto": s.get("auto", False), "async": s.get("async", False), "ops": s["ops"]}
+        if not hs:
+            return
     for h in hs:
         if h.get("crash"):
-            ck.broken.append("harness c01: history %d aborted: %s" % (h["case"], h["crash"][:300]))
+            ck.broken.append("harness c01: history %d did not run to its end: %s" % (h["case"], h["crash"][:300]))
+            if not getattr(ck, "nofail_detail", None):
+                ck.nofail_detail = {"kind": "history-aborted", "why": h["crash"][:600], "case": h["case"], "nwal": h["nwal"], "nser": h["nser"],
+                                    "nmst": h.get("nmst", 1), "pre": h.get("pre", 0), "auto": h.get("auto", False), "async": h.get("async", False), "ops": h["ops"]}
+        if h.get("tie_err"):
+            ck.broken.append("correspondence C01 (flush protocol: a flush removes exactly the log files of the epoch it switched - "
+                             "model wstep WRemove / C01_recovery_exact): history %d: %s" % (h["case"], h["tie_err"][:300]))
+            if not getattr(ck, "nofail_detail", None):
+                ck.nofail_detail = {"kind": "flush-protocol", "why": h["tie_err"], "case": h["case"], "nwal": h["nwal"], "nser": h["nser"],
+                                    "nmst": h.get("nmst", 1), "pre": h.get("pre", 0), "ops": h["ops"]}
     # ---- placement tie: record i lives in partition (#writes before i) mod N ----
     for h in hs:
         for im in h["images"]:
@@ -175,9 +290,8 @@ def main(ck):
                     parent = im["parts"] or []
                 if im.get("dump") is None:
                     im["dump"] = []
-                imgs.append(image_coq(im, parent))
-            drops = coq_list(["%d%%nat" % i for i, o in enumerate(h["ops"]) if o["k"] == "D"])
-            cases.append("mkcc %s %s\n %s" % (coq_list([batch_coq(o) for o in h["ops"]]), drops, coq_list(imgs)))
+                imgs.append(image_coq(h, im, parent))
+            cases.append("mkcc %d%%nat %s\n %s" % (h["nwal"], coq_list([cop_coq(h, o) for o in h["ops"]]), coq_list(imgs)))
         txt = ("From Coq Require Import NArith ZArith List Bool. From OG Require Import C01.Model C01.Corr.\n"
                "Import ListNotations.\nDefinition cases : list ccase := [\n%s\n].\n"
                "Definition M := Eval vm_compute in all_codes cases.\nPrint M.\n") % ";\n".join(cases)
@@ -195,11 +309,17 @@ def main(ck):
                 codes[idx * shard + j] = [int(x) for x in l.replace("\n", " ").split(";") if x.strip()]
     # ---- verdicts ----
     nimg = 0
-    fail_known = {"C01-walphase": 0, "C01-idxtxn": 0, "C01-walheadereof": 0}
+    fail_known = {"C01-walphase": 0, "C01-asyncreplay": 0, "C01-idxtxn": 0, "C01-walheadereof": 0}
     nviol = 0
     model_disagree = []
     crashk = {}
     nontriv = set()
+    ntie = 0
+    nasync = {"images": 0, "drop_refused": 0, "extra_writes": 0}
+    what_known = {"C01-walphase": "an acknowledged overwrite is reverted to an older acknowledged value after crash + restart (WAL replay order)",
+                  "C01-asyncreplay": "wal-replay-async: a write acknowledged while the log is still being re-applied is reverted to the older logged value by the replay",
+                  "C01-idxtxn": "shard cannot be opened after a crash that leaves two pending series-index transaction files",
+                  "C01-walheadereof": "a torn WAL record consisting of exactly its 5 header bytes makes replay apply stale buffer contents"}
     for hi, h in enumerate(hs):
         cl = codes.get(hi)
         parent_torn = -1
@@ -212,43 +332,78 @@ def main(ck):
             kind = "torn-wal-append" if im["torn"] >= 0 else ("in-flush" if im["at"].startswith(("flush", "after rename", "after create data", "after mkdir data")) else
                                                               ("index" if im["at"].startswith("index") else ("wal-append-unacked" if im["inflight"] >= 0 else "between-ops")))
             kind += "+recovery-crash" if im["sub"] >= 0 else ""
+            kind += "+async-replay" if im.get("async") else ""
             crashk[kind] = crashk.get(kind, 0) + 1
             code = cl[j] if cl and j < len(cl) else None
+            if code is not None and (code & 4):
+                model_disagree.append((h, j, "live-log tie: the log files found in the image differ from the model's live log (live_current: "
+                                             "placement by counter mod N, epochs below nj removed, gone partitions of epoch nj)"))
+            if code is not None:
+                code &= 3
+            if im.get("tie") and im["sub"] < 0:
+                ntie += 1
+            # asynchronous replay: the model's volatile flags (replaying after a crash; a refused drop changes nothing)
+            a = im.get("async")
+            failures = []  # (what, diff) of the direct oracle
+            if a:
+                nasync["images"] += 1
+                if a["walfiles"] > 0 and not a["replaying"]:
+                    model_disagree.append((h, j, "asynchronous replay: the re-opened shard does not report replayingWal while its log files are still unread (model: XCrash sets x_replaying)"))
+                if a["drop_tried"]:
+                    nasync["drop_refused"] += 1 if a["drop_refused"] else 0
+                    if not a["drop_refused"]:
+                        model_disagree.append((h, j, "a DROP MEASUREMENT during the log replay was accepted (model: refused while x_replaying)"))
+                    if a["mark_after"]:
+                        model_disagree.append((h, j, "a refused DROP MEASUREMENT left the measurement's deleting mark set (model: C01_refused_drop_changes_nothing)"))
+                if a.get("extra") and a["extra_acked"]:
+                    nasync["extra_writes"] += 1
+                if not im.get("err") and not a.get("live"):
+                    failures.append(("rows read from the re-opened shard after its asynchronous replay finished differ from the acknowledged last-write-wins state: %s"
+                                     % json.dumps((a.get("live_diff") or [])[:3]), a.get("live_diff") or []))
             okimg = bool(im["match"])
-            if okimg:
+            if okimg and not failures:
                 if code is not None and not (code & 1):
                     model_disagree.append((h, j, "oracle passes but the model's repaired recovery differs"))
                 continue
-            what = im.get("err") or ("recovered rows differ from the acknowledged last-write-wins state: %s" % json.dumps(im["diff"][:3]))
-            fid = None
-            if im.get("diff") and code is not None and (code & 2) and walphase_signature(h, im):
-                fid = "C01-walphase"
-            elif im.get("err") and "open after crash failed" in im["err"] and im.get("txn", 0) >= 2:
-                fid = "C01-idxtxn"
-            elif parent_torn == WAL_HEAD:
-                fid = "C01-walheadereof"
-            if fid and ck.match_finding(fid):
-                fail_known[fid] += 1
-                ck.known_finding(fid, {"C01-walphase": "an acknowledged overwrite is reverted to an older acknowledged value after crash + restart (WAL replay order)",
-                                       "C01-idxtxn": "shard cannot be opened after a crash that leaves two pending series-index transaction files",
-                                       "C01-walheadereof": "a torn WAL record consisting of exactly its 5 header bytes makes replay apply stale buffer contents"}[fid])
-            else:
-                nviol += 1
-                if nviol <= 3:
-                    ck.violation({"kind": "direct-oracle", "what": what, "case": h["case"], "nwal": h["nwal"], "nser": h["nser"], "pre": h.get("pre", 0), "auto": h.get("auto", False), "async": h.get("async", False), "ops": h["ops"],
-                                  "crash": {"at": im["at"], "during_op": im["op"], "acked_ops": im["acked"], "inflight_op": im["inflight"],
-                                            "torn_bytes": im["torn"], "recovery_mutations_before_second_crash": im["sub"],
-                                            "live_wal_parts": im["parts"], "pending_index_txn": im.get("txn")},
-                                  "diff": im.get("diff"), "model_code": code, "matched_fixed_or_unknown_finding": fid})
+            if not okimg:
+                failures.append((im.get("err") or ("recovered rows differ from the acknowledged last-write-wins state: %s" % json.dumps((im.get("diff") or [])[:3])), im.get("diff")))
+            for what, dff in failures:
+                fid = None
+                if dff and a and asyncreplay_signature(h, im, dff):
+                    fid = "C01-asyncreplay"
+                elif dff and code is not None and (code & 2) and walphase_signature(h, im):
+                    fid = "C01-walphase"
+                elif im.get("err") and "open after crash failed" in im["err"] and im.get("txn", 0) >= 2:
+                    fid = "C01-idxtxn"
+                elif parent_torn == WAL_HEAD:
+                    fid = "C01-walheadereof"
+                if fid and ck.match_finding(fid):
+                    fail_known[fid] += 1
+                    ck.known_finding(fid, what_known[fid])
+                else:
+                    nviol += 1
+                    if nviol <= 3:
+                        ck.violation({"kind": "direct-oracle", "what": what, "case": h["case"], "nwal": h["nwal"], "nser": h["nser"], "nmst": h.get("nmst", 1),
+                                      "pre": h.get("pre", 0), "auto": h.get("auto", False), "async": h.get("async", False), "ops": h["ops"],
+                                      "crash": {"at": im["at"], "during_op": im["op"], "acked_ops": im["acked"], "inflight_op": im["inflight"],
+                                                "torn_bytes": im["torn"], "recovery_mutations_before_second_crash": im["sub"],
+                                                "live_wal_parts": im["parts"], "pending_index_txn": im.get("txn"), "async_replay": a},
+                                      "diff": dff, "model_code": code, "matched_fixed_or_unknown_finding": fid})
     ck.cov["evaluations"] = nimg
     ck.cov["distinct_nontrivial"] = len(nontriv)
     ck.cov["traces_validated_against_impl"] = sum(len(c) for c in codes.values()) - len(model_disagree)
     ck.cov["rule"] = ("evaluation = one crash image of a real shard (frozen at a WAL append - also torn -, a flush step, an index write, "
-                      "between ops, or during the recovery of such an image) re-opened with the real code and dumped through real cursors; "
+                      "between ops, while a flush is held at one of its steps and writes go on, or during the recovery of such an image) re-opened "
+                      "with the real code (synchronous or held asynchronous replay) and dumped through real cursors; "
                       "non-trivial history = overwrites some (series,time,field) and contains a flush; distinct = different op lists")
     ck.cov["histories"] = len(hs)
     ck.cov["crash_point_histogram"] = crashk
     ck.cov["wal_partitions_histogram"] = {str(k): sum(1 for h in hs if h["nwal"] == k) for k in sorted({h["nwal"] for h in hs})}
+    ck.cov["live_log_tie_images"] = ntie
+    ck.cov["async_replay"] = nasync
+    ck.cov["writes_acknowledged_while_a_flush_was_held"] = sum(h["flags"].get("paused_writes", 0) for h in hs)
+    ck.cov["torn_prefix_sweep_images"] = sum(h["flags"].get("torn_all", 0) for h in hs)
+    ck.cov["two_measurement_histories"] = sum(1 for h in hs if h.get("nmst", 1) > 1)
     ck.cov["known_finding_images"] = fail_known
     ck.cov["variant_implemented"] = "current (known findings reproduce)" if any(fail_known.values()) else "repaired on the explored domain"
     ck.cov["samples"] = [{"case": h["case"], "nwal": h["nwal"], "ops": [o["k"] for o in h["ops"]], "images": len(h["images"])} for h in hs[:3]]
@@ -256,7 +411,9 @@ def main(ck):
         f = ck.match_finding(fid)
         if f and fail_known[fid] == 0:
             ck.notes.append("open finding %s did not reproduce in this run (stale or not sampled)" % fid)
-    if model_disagree and not ck.violations:
+    if model_disagree:
         h, j, why = model_disagree[0]
         ck.broken.append("correspondence C01: %s (history %d image %d)" % (why, h["case"], j))
-        ck.nofail_detail = {"kind": "correspondence", "why": why, "case": h["case"], "image": h["images"][j], "ops": h["ops"], "nwal": h["nwal"], "nser": h["nser"]}
+        if not ck.violations and not getattr(ck, "nofail_detail", None):
+            ck.nofail_detail = {"kind": "correspondence", "why": why, "case": h["case"], "image": h["images"][j], "ops": h["ops"], "nwal": h["nwal"],
+                                "nser": h["nser"], "nmst": h.get("nmst", 1), "pre": h.get("pre", 0), "async": h.get("async", False)}
